@@ -493,4 +493,57 @@ theorem tracker_iff (recs : List (List Line)) (hok : ∀ rec ∈ recs, ∀ l ∈
       exact h3 rec' hrec' st.2 this
 
 
+/-- the widths stay unset exactly as long as no step has a previous line -/
+theorem fold_unset_iff (S : List (Option Line × Line)) (hS : ∀ st ∈ S, StepOk st) (s : S4) :
+    Unset (S.foldl g s) ↔ Unset s ∧ ∀ st ∈ S, st.1 = none := by
+  induction S generalizing s with
+  | nil => simp
+  | cons st rest ih =>
+    have hst := hS st (by simp)
+    rw [List.foldl_cons, ih (fun x hx => hS x (by simp [hx])) (g s st)]
+    constructor
+    · rintro ⟨u, hrest⟩
+      obtain ⟨u1, u2⟩ := step_back_unset s st hst u
+      exact ⟨u1, fun x hx => by
+        rcases List.mem_cons.mp hx with rfl | hx
+        · exact u2
+        · exact hrest x hx⟩
+    · rintro ⟨u, hall⟩
+      have hq := hall st (by simp)
+      have hd : ¬ Dead s st := by
+        unfold Dead; rw [hq]; simp only [prevR]; have := u.1; omega
+      refine ⟨?_, fun x hx => hall x (by simp [hx])⟩
+      rw [g_live s st hd, hq]
+      simpa [Unset, prevR, prevB] using u
+
+/-- **`rpl = bpl = −1` after the scan ⇔ no line of the file is followed by another line of its record** -/
+theorem tracker_unset_iff (recs : List (List Line)) (hok : ∀ rec ∈ recs, ∀ l ∈ rec, l.Ok)
+    (hterm : ∀ rec ∈ recs, ∀ l ∈ rec.dropLast, l.eol = true) :
+    ((runFile {} recs).rpl = -1 ∧ (runFile {} recs).bpl = -1) ↔ ∀ rec ∈ recs, rec.dropLast = [] := by
+  have hfold := file_fold recs {} hok hterm
+  have hcore : ((runFile {} recs).rpl = -1 ∧ (runFile {} recs).bpl = -1) ↔ Unset ((fileSteps recs).foldl g (core {})) := by
+    rw [← hfold]; rfl
+  have hS : ∀ st ∈ fileSteps recs, StepOk st := by
+    intro st hst
+    obtain ⟨rec, hrec, hst⟩ := List.mem_flatMap.mp hst
+    exact stepsFrom_ok rec (hok rec hrec) st hst
+  rw [hcore, fold_unset_iff _ hS]
+  constructor
+  · rintro ⟨_, h⟩ rec hrec
+    cases hdl : rec.dropLast with
+    | nil => rfl
+    | cons q qs =>
+      obtain ⟨st, hst, e⟩ := stepsFrom_prev_exists rec none q (by rw [hdl]; simp)
+      have := h st (List.mem_flatMap.mpr ⟨rec, hrec, hst⟩)
+      rw [this] at e; cases e
+  · intro h
+    refine ⟨⟨rfl, rfl⟩, fun st hst => ?_⟩
+    obtain ⟨rec, hrec, hst'⟩ := List.mem_flatMap.mp hst
+    cases hq : st.1 with
+    | none => rfl
+    | some q =>
+      rcases stepsFrom_prev_mem rec none st q hst' hq with e | e
+      · cases e
+      · rw [h rec hrec] at e; simp at e
+
 end EaselModel.Sqio.TrackerExact
